@@ -1,11 +1,13 @@
 (* C05 — the iterator is total: no panic, no hang, fused, on arbitrary bytes.  Statements only.
    Proved: panic freedom, the fused property (also with masters open), I/O errors of the source are never dropped (they surface
-   at next()/try_recover() and over whole runs), recovery only moves forward and fails only with EOF (or the source's error);
+   at next()/try_recover() and over whole runs; up to the moment it is reported a source error changes nothing: the outcomes
+   before it are those of the abstract reader - C05_io_error_refines_until_reported), recovery only moves forward and fails
+   only with EOF (or the source's error);
    termination of every loop: the model's recursion budget (read_next/buffer_master recursion, the try_recover loop) is never
    exhausted on any byte stream, and a full drain ends within the model's call bound with a linear bound on the number of
    items (the call bound needs the specification's declared paths to be shorter than 2 * |input| + 64; a deeper specification
    exceeds it: C05_deep_spec_exceeds_call_bound — a statement about the model's bound, the drain still ends: C05_drain_length). *)
-From Ebml Require Import Base Tools Spec Reader Pure Proofs.Tactics Proofs.BytesProofs Proofs.DecodersProofs Proofs.ReaderIO Proofs.Refine Proofs.PureProofs Proofs.NoPanic Proofs.Termination Proofs.AuditIO.
+From Ebml Require Import Base Tools Spec Reader Pure Proofs.Tactics Proofs.BytesProofs Proofs.DecodersProofs Proofs.ReaderIO Proofs.Refine Proofs.PureProofs Proofs.NoPanic Proofs.Termination Proofs.AuditIO Proofs.RefineFail.
 
 (* no call panics: for every specification whose named parents are masters (what Props/C18.v proves of every derived
    specification), every configuration (tolerances, buffered set, size limit, EOF closing), every byte stream and every
@@ -131,6 +133,68 @@ Example C05_io_ex :
   run_reader c 65536 [Chunk 18; Fail 9] doc [RAll; RAll] =
     [OItem (TStart 129) 0; OItem (TElem 16641 (VI 0)) 2; OItem (TEnd 129) 0; OErr (RIo 9);
      OItem (TStart 129) 5; OItem (TElem 16641 (VI 7)) 7; OItem (TEnd 129) 5; ONone].
+Proof. vm_compute. repeat split; reflexivity. Qed.
+
+(* ------------------------------------------------------------------ an I/O error never corrupts what comes before its report *)
+(* (d) injected source errors: for every specification whose named parents are masters, every configuration, every stream of
+   bytes, every capacity, every sequence of next()/try_recover()/drain calls and every read script pre ++ Fail code :: rest in
+   which every read before the failing one returns data while data remains (calm pre; rest arbitrary), one of:
+   (i) the run equals the abstract run (the error is not reported during these calls); (ii) the run is common ++ [e] ++ tail
+   where common is a prefix of the abstract run and holds no source error and e is the source error RIo code (from next() or
+   from try_recover()) - no wrong item, offset or error is emitted before the source error is reported; (iii) try_recover() is
+   called (after the calls ops1) while the source error is still queued behind the items qa: the outcomes of ops1 are a
+   prefix of the abstract run and hold no source error.  (Props/C04.v has the statement for arbitrary specifications and
+   inputs, under the hypothesis that the abstract run neither panics nor exhausts its budget.) *)
+Theorem C05_io_error_refines_until_reported : forall c cap0 pre code rest input ops, calm pre -> implied_ok (c_sp c) -> wf_bytes input ->
+  run_reader c cap0 (pre ++ Fail code :: rest) input ops = p_run c input ops \/
+  (exists common e tail m,
+     run_reader c cap0 (pre ++ Fail code :: rest) input ops = common ++ [e] ++ tail /\
+     p_run c input ops = common ++ m /\ outs_io common = [] /\
+     (e = OErr (RIo code) \/ e = ORecErr (RIo code))) \/
+  (exists ops1 ops2 qa tail m, ops = ops1 ++ RRecover :: ops2 /\
+     r_queue (fst (run_reader_st c cap0 (pre ++ Fail code :: rest) input ops1)) = qa ++ [QErr (RIo code)] /\ noerr qa /\
+     run_reader c cap0 (pre ++ Fail code :: rest) input ops = run_reader c cap0 (pre ++ Fail code :: rest) input ops1 ++ tail /\
+     p_run c input ops = run_reader c cap0 (pre ++ Fail code :: rest) input ops1 ++ m /\
+     outs_io (run_reader c cap0 (pre ++ Fail code :: rest) input ops1) = []).
+Proof. exact refines_until_io_error_wf. Qed.
+
+(* the abstract reader has no source: its run reports no source error (when it reports neither a panic nor budget exhaustion) *)
+Theorem C05_abstract_run_no_io_error : forall c input ops, ~ In OPanic (p_run c input ops) -> ~ In OFuel (p_run c input ops) ->
+  outs_io (p_run c input ops) = [].
+Proof. exact pure_no_io. Qed.
+
+(* while a Fail event is ahead in the script, the refill loop never exhausts its budget: it leaves the panic/budget flag alone *)
+Theorem C05_refill_budget_with_fail_ahead : forall n st, fails (r_script st) <> [] -> r_bad (fst (ensure n st)) = r_bad st.
+Proof. exact ensure_bad. Qed.
+
+(* after the reported source error nothing is promised: the position inside the stream is lost.  Root{Binary of 28 bytes}; the
+   source delivers 24 bytes and fails: the failure is met in the middle of the payload read, the element header is already
+   consumed, and the calls after the reported error parse payload bytes as headers - the abstract run yields the element *)
+Example C05_after_io_error_unspecified :
+  let sp := [ {| e_id := 129; e_ty := DMaster; e_path := [] |}; {| e_id := 16642; e_ty := DBinary; e_path := [PId 129] |} ] in
+  let c := {| c_sp := sp; c_allow_id := false; c_allow_hier := false; c_allow_over := false; c_max := Some 4000000000; c_buffered := []; c_emit_eof := true |} in
+  let doc := [129; 159; 65; 2; 156] ++ repeat 7 28 in
+  run_reader c 65536 [Chunk 24; Fail 9] doc [RNext; RNext; RNext; RNext; RAll] =
+    [OItem (TStart 129) 0] ++ [OErr (RIo 9)] ++
+    [OErr (RInvalidTagId 5 7726764066567); OErr (RInvalidTagId 5 7726764066567); OErr (RInvalidTagId 5 7726764066567)] /\
+  p_run c doc [RNext; RNext; RNext; RNext; RAll] =
+    [OItem (TStart 129) 0] ++ [OItem (TElem 16642 (VB (repeat 7 28))) 2; OItem (TEnd 129) 0; ONone; ONone].
+Proof. vm_compute. split; reflexivity. Qed.
+
+(* alternative (iii) is needed: the outcome of a try_recover() called while the source error is queued need not be the abstract
+   one.  Root{Binary of 16 bytes} Root(1 byte: 0x80); the source delivers the 24 bytes and fails.  The third next() closes the
+   first Root and meets the failure in the look-ahead of the next header: it returns the End, the error stays queued (the
+   queue after these three calls is [QErr (RIo 9)]).  try_recover() then resumes at offset 22 - one byte past the header
+   that was never read - and finds a header there (ORecOk); the abstract reader has read that header and fails to recover *)
+Example C05_recover_while_io_error_queued :
+  let sp := [ {| e_id := 129; e_ty := DMaster; e_path := [] |}; {| e_id := 16642; e_ty := DBinary; e_path := [PId 129] |} ] in
+  let c := {| c_sp := sp; c_allow_id := false; c_allow_hier := false; c_allow_over := false; c_max := Some 4000000000; c_buffered := []; c_emit_eof := true |} in
+  let doc := [129; 147; 65; 2; 144] ++ repeat 7 16 ++ [129; 129; 128] in
+  let three := [OItem (TStart 129) 0; OItem (TElem 16642 (VB (repeat 7 16))) 2; OItem (TEnd 129) 0] in
+  run_reader c 65536 [Chunk 24; Fail 9] doc [RNext; RNext; RNext] = three /\
+  r_queue (fst (run_reader_st c 65536 [Chunk 24; Fail 9] doc [RNext; RNext; RNext])) = [] ++ [QErr (RIo 9)] /\
+  run_reader c 65536 [Chunk 24; Fail 9] doc [RNext; RNext; RNext; RRecover; RNext] = three ++ [ORecOk; OErr (RIo 9)] /\
+  p_run c doc [RNext; RNext; RNext; RRecover; RNext] = three ++ [ORecErr (REof 24 None None None); OItem (TStart 129) 21].
 Proof. vm_compute. repeat split; reflexivity. Qed.
 
 (* fused, in general: for every configuration (EOF closing on or off) and whatever masters are still open - at the end of the
